@@ -3,6 +3,8 @@
 //! `nsverif limits fn <in> <out>`    function-level: one count vector + caps per line, the real
 //!                                   `first_exceeded_limit` is called on facts/counts built with
 //!                                   exactly those sizes (public API and public fields only).
+//! `nsverif limits progs <list> <out> [arena_mib] [nofull]`   the same for every `<id> <path>` line of <list>,
+//!                                   one JSON object per line.
 //! `nsverif limits prog <src> <out> [arena_mib] [nofull]`
 //!                                   program-level: parser + resolver (the real gate) + runtime,
 //!                                   with the resolver's plan, with no plan, and with the plan
@@ -59,6 +61,25 @@ pub fn run(args: &[String]) -> ExitCode {
     match args.first().map(String::as_str) {
         Some("fn") if args.len() >= 3 => run_fn(&args[1], &args[2]),
         Some("prog") if args.len() >= 3 => run_prog(&args[1], &args[2], &args[3..]),
+        Some("progs") if args.len() >= 3 => run_progs(&args[1], &args[2], &args[3..]),
+        Some("caps") => {
+            let k = DEFAULT_CAPS;
+            println!(
+                "caps {},{},{},{},{},{},{},{},{},{},{}",
+                k.max_functions,
+                k.max_locals,
+                k.max_scopes,
+                k.max_statements,
+                k.max_total_ops,
+                k.max_ops_per_function,
+                k.max_total_blocks,
+                k.max_blocks_per_function,
+                k.max_direct_user_calls,
+                k.max_summary_events,
+                k.max_liveness_events
+            );
+            ExitCode::SUCCESS
+        }
         _ => {
             eprintln!("usage: nsverif limits fn <in> <out> | limits prog <src> <out> [arena_mib] [nofull]");
             ExitCode::from(2)
@@ -428,15 +449,62 @@ fn scratch_leak<'a, T>(arena: &'a Arena, v: T) -> &'a T {
     Box::leak(b)
 }
 
+struct Arenas {
+    arena: &'static Arena,
+    res_arena: &'static Arena,
+    scratch: &'static Arena,
+    frame: &'static Arena,
+}
+
+impl Arenas {
+    fn new(arena_mib: usize) -> Self {
+        let mk = |mib: usize| -> &'static Arena { Box::leak(Box::new(Arena::new(mib * MEBI).expect("arena"))) };
+        Self { arena: mk(arena_mib), res_arena: mk(arena_mib), scratch: mk(4 * arena_mib), frame: mk(arena_mib) }
+    }
+
+    fn reset(&self) {
+        unsafe {
+            self.arena.reset(0);
+            self.res_arena.reset(0);
+            self.scratch.reset(0);
+            self.frame.reset(0);
+        }
+    }
+}
+
 fn run_prog(src_path: &str, output: &str, rest: &[String]) -> ExitCode {
     let arena_mib: usize = rest.first().and_then(|s| s.parse().ok()).unwrap_or(256);
     let nofull = rest.iter().any(|s| s == "nofull");
     let src = fs::read_to_string(src_path).expect("read source");
-    let src: &'static str = Box::leak(src.into_boxed_str());
-    let arena: &'static Arena = Box::leak(Box::new(Arena::new(arena_mib * MEBI).expect("arena")));
-    let res_arena: &'static Arena = Box::leak(Box::new(Arena::new(arena_mib * MEBI).expect("arena")));
-    let scratch: &'static Arena = Box::leak(Box::new(Arena::new(4 * arena_mib * MEBI).expect("arena")));
-    let frame: &'static Arena = Box::leak(Box::new(Arena::new(arena_mib * MEBI).expect("arena")));
+    let arenas = Arenas::new(arena_mib);
+    let o = prog_json(Box::leak(src.into_boxed_str()), &arenas, nofull);
+    fs::write(output, o).expect("write");
+    ExitCode::SUCCESS
+}
+
+/// Batch: every line of <list> is `<id> <path>`; one JSON object per line is appended to
+/// <out> as soon as the program is done (so a crash loses only the program that crashed).
+fn run_progs(list: &str, output: &str, rest: &[String]) -> ExitCode {
+    use std::io::Write as _;
+    let arena_mib: usize = rest.first().and_then(|s| s.parse().ok()).unwrap_or(256);
+    let nofull = rest.iter().any(|s| s == "nofull");
+    let text = fs::read_to_string(list).expect("read list");
+    let arenas = Arenas::new(arena_mib);
+    let mut out = fs::File::create(output).expect("create output");
+    for line in text.lines() {
+        let mut it = line.split_whitespace();
+        let (Some(id), Some(path)) = (it.next(), it.next()) else { continue };
+        let src = fs::read_to_string(path).expect("read source");
+        let o = prog_json(Box::leak(src.into_boxed_str()), &arenas, nofull);
+        writeln!(out, "{{\"id\":{},\"r\":{}}}", jstr(id), o).expect("write");
+        out.flush().expect("flush");
+        arenas.reset();
+    }
+    ExitCode::SUCCESS
+}
+
+fn prog_json(src: &'static str, a: &Arenas, nofull: bool) -> String {
+    let (arena, res_arena, scratch, frame) = (a.arena, a.res_arena, a.scratch, a.frame);
     let mut o = String::from("{");
     let t0 = Instant::now();
     let lexer = Lexer::new(src, arena);
@@ -447,8 +515,7 @@ fn run_prog(src_path: &str, output: &str, rest: &[String]) -> ExitCode {
     if !perr.diagnostics.is_empty() {
         let _ = write!(o, ",\"parse_diags\":{}", diags_json(perr));
         o.push('}');
-        fs::write(output, o).expect("write");
-        return ExitCode::SUCCESS;
+        return o;
     }
     let t1 = Instant::now();
     let mut resolver = Resolver::with_facts_arena(res_arena, arena);
@@ -456,8 +523,7 @@ fn run_prog(src_path: &str, output: &str, rest: &[String]) -> ExitCode {
     let t_resolve = t1.elapsed().as_millis();
     if rres.is_err() {
         let _ = write!(o, ",\"resolve_panic\":{}}}", jstr(&last_panic()));
-        fs::write(output, o).expect("write");
-        return ExitCode::SUCCESS;
+        return o;
     }
     let accepted = !resolver.errors.has_errors();
     let _ = write!(o, ",\"diags\":{},\"accepted\":{}", diags_json(&resolver.errors), accepted);
@@ -528,6 +594,5 @@ fn run_prog(src_path: &str, output: &str, rest: &[String]) -> ExitCode {
         ",\"t\":{{\"parse\":{t_parse},\"resolve\":{t_resolve},\"full\":{t_full},\"run\":{t_run}}},\"debug\":{}}}",
         cfg!(debug_assertions)
     );
-    fs::write(output, o).expect("write");
-    ExitCode::SUCCESS
+    o
 }
